@@ -11,7 +11,7 @@ assert s.count(old)==1,(s.count(old),old)
 open(p,'w').write(s.replace(old,new))
 PY
   echo "=== $1"; (cd $d/include && diff -u /repo/include/momo/$2 momo/$2 | tail -n +3)
-  VERIF_REPO=$d timeout 900 ./check C12 > build/C12/mut_$1.log 2>&1; echo "exit=$?"
+  VERIF_REPO=$d timeout 1500 ./check C12 > build/C12/mut_$1.log 2>&1; echo "exit=$?"
   grep -E "stage .*BROKEN|VIOLATION|done:" build/C12/mut_$1.log | cut -c1-260
   rm -rf $d
 }
@@ -28,3 +28,5 @@ run M6 HashSet.h "		startBucket.UpdateMaxProbe(probe);" "		//startBucket.UpdateM
 run M7 details/HashBucketLimP4.h "				if (memPoolIndex != maxCount)
 					memPoolIndex = minMemPoolIndex;" "				if (memPoolIndex == maxCount)
 					memPoolIndex = minMemPoolIndex;"
+run M8 details/HashBucketOne.h "			mHashState = HashState{2};" "			mHashState = HashState{0};"
+for x in a b; do d=$(mktemp -d); cp -r /repo/include $d/; (cd $d && patch -p1 -s < /tmp/seed-out/C12/$x/patch.diff); echo "=== seed $x"; VERIF_REPO=$d timeout 1500 ./check C12 > build/C12/seed_$x.log 2>&1; echo "exit=$?"; grep -E "stage .*BROKEN|VIOLATION|done:" build/C12/seed_$x.log | cut -c1-260; rm -rf $d; done
